@@ -4,6 +4,7 @@ package app
 
 import (
 	"net/url"
+	"os"
 	"regexp"
 	"strconv"
 	"strings"
@@ -109,4 +110,16 @@ func vPatchPublishMS(loc string) int {
 		panic(err)
 	}
 	return vDateTimeMS(m.DateTime(u.Query().Get("publishTime")))
+}
+
+// vLoadInit loads the real init segment of rep (native side; the generated asset tables carry no boxes).
+func vLoadInit(rep *RepData) {
+	raw, err := os.ReadFile("testdata/assets/testpic_2s/" + rep.InitURI)
+	if err != nil {
+		panic(err)
+	}
+	rep.initSeg, err = getInitSeg(raw)
+	if err != nil {
+		panic(err)
+	}
 }
